@@ -38,6 +38,7 @@ type c19Case struct {
 	AudioStartMS int    `json:"audio_start_ms,omitempty"` // the audio track starts this late
 	AudioFirst   bool   `json:"audio_first,omitempty"`    // the audio track is listed before the video track in Muxer.Tracks
 	AudioDefault bool   `json:"audio_default,omitempty"`  // the additional audio track is the one marked IsDefault
+	ParamFrame   int    `json:"param_frame,omitempty"`    // video: this frame (an ordinary one) carries new parameter sets ahead of the key frame that uses them
 	BaseDays     int    `json:"base_days,omitempty"`      // the time stamps start that many days into the clock (a source that has been running for long)
 	ParamAt      int    `json:"param_at,omitempty"`       // video: the k-th key frame (1-based, > 1) switches to the other parameter set
 }
@@ -255,6 +256,9 @@ func c19RunCase(cs c19Case) (viols [][2]string, nplaylists int, outcome string) 
 				}
 			}
 			u := wunit{Track: 0, DTS: dts, RA: ra, Seq: i}
+			if !ra && cs.ParamFrame != 0 && i == cs.ParamFrame {
+				u.Params = 2
+			}
 			if ra {
 				u.Params = 1
 				nKey++
@@ -470,6 +474,18 @@ func c19Run(c *vh.Ctx) {
 				cs := c19Case{Src: src, PartMS: pm, SegMS: seg, Spacing: sp, Audio: audio, AudioStartMS: ast, AudioFirst: am.first, AudioDefault: audioDefault, BaseDays: baseDays}
 				if src.Kind == "h264" && len(sp) == 1 && sp[0] == 1000 && ast == 0 && !am.first {
 					// the same grid point with new parameter sets on the second / third key frame
+					for _, pf := range []int{int(int64(1300) * int64(src.Clock) / 1000 / int64(src.D)), int(int64(2050) * int64(src.Clock) / 1000 / int64(src.D))} {
+						// new parameter sets on an ordinary frame 1.3 s (2.05 s) into the stream, used from the next key frame on
+						csf := cs
+						csf.ParamFrame = pf
+						vf, nplf, outf := c19RunCase(csf)
+						c.Exec()
+						c.AddSteps(int64(nplf))
+						c.Outcome(strings.Join([]string{src.Label, fmt.Sprint(pm, seg, sp, audio, "param-frame", pf), outf}, "|"))
+						for _, x := range vf {
+							c.Violation(x[0], x[1], csf)
+						}
+					}
 					for _, pa := range []int{2, 3} {
 						csp := cs
 						csp.ParamAt = pa
